@@ -6,6 +6,7 @@ import (
 	"fmt"
 	"os"
 	"path/filepath"
+	"time"
 
 	"verifharness/internal/core"
 	"verifharness/internal/fixture"
@@ -17,7 +18,7 @@ import (
 func init() {
 	core.Register(&core.Simple{
 		Id: "C08", Lvl: "exploration", Quick: 640, Thorough: 20000, PerBatch: 160, Width: 160, Timeout: 1800,
-		RuleText: "each case downloads one generated file (sizes 0,1,2,511,512,513,32767,32768,32769,65536,1 MiB and random, thorough up to 16 MiB; names over ASCII and Mac-Roman high bytes, in the root or a sub-folder; with/without stored info and resource forks) in one mode: full, resume at k in {0,1,size/2,size-1,size,random}, or preview; the request goes through the real connection loop, the transfer through the real handleFileTransfer; a reference client reads the whole stream until the handler returns and a reference parser checks header consistency, exactly file[k:], resource fork framing, and the reply's size fields. distinct = (size class, mode, forks, name class); non-trivial = size > 0",
+		RuleText: "each case downloads one generated file (sizes 0,1,2,511,512,513,32767,32768,32769,65536,1 MiB and random, thorough up to 16 MiB; names over ASCII and Mac-Roman high bytes, in the root or a sub-folder; with/without stored info and resource forks) in one mode: full (a few of them read by a peer with a 32 KiB window that stalls for 11 s mid-transfer), resume at k in {0,1,size/2,size-1,size,random}, or preview; the request goes through the real connection loop, the transfer through the real handleFileTransfer; a reference client reads the whole stream until the handler returns and a reference parser checks header consistency, exactly file[k:], resource fork framing, and the reply's size fields. distinct = (size class, mode, forks, name class); non-trivial = size > 0",
 		Case: runCase,
 	})
 }
@@ -84,6 +85,9 @@ func runCase(c *core.Case) {
 	if c.Tier == "thorough" && r.Chance(1, 40) {
 		size = (1 << 20) + r.Intn(15<<20)
 	}
+	if c.Index%160 == 7 {
+		size = 200000 + r.Intn(200000) // the slow-reader cases need a file well above the peer's 32 KiB window
+	}
 	name, nameClass := genName(r)
 	name = clean(name)
 	data := r.Bytes(size)
@@ -129,6 +133,10 @@ func runCase(c *core.Case) {
 		return
 	}
 	mode := core.Pick(r, []string{"full", "full", "resume", "resume", "resume", "preview"})
+	slow := c.Index%160 == 7 // a few downloads are read by a peer that stalls for 11 s in the middle
+	if slow {
+		mode = "full"
+	}
 	k := -1
 	if mode == "resume" {
 		k = core.Pick(r, []int{0, 1, size / 2, size - 1, size, r.Intn(size + 1)})
@@ -161,7 +169,26 @@ func runCase(c *core.Case) {
 	if !d.HasSize || d.FileSize != remaining {
 		c.Fail("C08/reply/file-size", "%s (size %d, offset %d): reply announces file size %d (present %v), remaining data length is %d", mode, size, k, d.FileSize, d.HasSize, remaining)
 	}
-	run := xfer.Download(srv, "10.8.0.1:2", d.Ref)
+	var run xfer.Run
+	if slow {
+		// the peer's receive window is 32 KiB: the server can only write as fast as the peer reads
+		t := refclient.OpenTransfer(srv, "10.8.0.1:2")
+		t.Conn.Backpressure = 32 << 10
+		t.Conn.Send(rc.Preamble(d.Ref, 0))
+		first := make([]byte, min(300, remaining/2+1))
+		t.Conn.ClientReadFull(first, refclient.Watchdog, t.Conn.HandlerDone)
+		time.Sleep(11 * time.Second)
+		buf := make([]byte, 64<<10)
+		for {
+			if _, err := t.Conn.ClientRead(buf, xfer.TransferWatchdog, t.Conn.HandlerDone); err != nil {
+				break
+			}
+		}
+		run = xfer.Finish(t)
+		c.Count("slow_reader_downloads", 1)
+	} else {
+		run = xfer.Download(srv, "10.8.0.1:2", d.Ref)
+	}
 	if !run.Done {
 		c.Unsure("transfer handler did not return")
 		return
